@@ -152,5 +152,18 @@ func Map(n int, timeout time.Duration, argv []string, reqs []string) []string {
 		}(k)
 	}
 	wg.Wait()
+	// Second opinion for "hang": under load a slow but terminating call (a search that rebuilds its state a hundred thousand
+	// times) can miss the deadline. Every request that was answered "hang" is run again ALONE, with twelve times the deadline,
+	// in a fresh worker; only if it still does not answer is it a hang. (At most eight are re-run; a genuinely looping
+	// implementation usually hangs on many requests and the first eight settle the verdict.)
+	again := 0
+	for i := range reqs {
+		if out[i] == "hang" && again < 8 {
+			again++
+			w := NewWorker(12*timeout, argv...)
+			out[i] = w.Call(reqs[i])
+			w.Close()
+		}
+	}
 	return out
 }
